@@ -17,7 +17,7 @@ use std::time::{Duration, Instant};
 pub use crate::props_b::{enum_code_report, reader_ops_trace, writer_ops_trace};
 
 pub const CASE_LIMIT: Duration = Duration::from_secs(4);
-pub const MAX_WITNESSES: usize = 3;
+pub const MAX_WITNESSES: usize = 12;
 
 pub struct Fail {
     pub expected: String,
